@@ -36,7 +36,15 @@ SHAPES = [(1, 1), (4, 2), (5, 1)]
 
 def cells(tier, seed):
     out = []
-    for obj, fam, pri, bt, shp in itertools.product(["mll", "loo"], FAMS, PRIORS, BATCHES, SHAPES):
+    priors, batches, shapes = PRIORS, BATCHES, SHAPES
+    if tier == "thorough":
+        # every subset of the four independent prior sites, more shapes (n = d, n < d), more broadcast patterns between model and data batch
+        four = ("ls", "const", "noise", "os")
+        subsets = [tuple(x for x, b in zip(four, bits) if b) for bits in itertools.product([0, 1], repeat=4)]
+        priors = subsets + [p for p in PRIORS if p not in subsets]
+        shapes = SHAPES + [(2, 1), (3, 3), (2, 3), (6, 2)]
+        batches = BATCHES + [((1,), (2,)), ((2, 1), (1, 2)), ((3, 2), ()), ((), (3, 2)), ((1, 2), (3, 1))]
+    for obj, fam, pri, bt, shp in itertools.product(["mll", "loo"], FAMS, priors, batches, shapes):
         mb, db = bt
         if pri == ("task",):
             if fam != "multitask" or mb or db:
